@@ -71,6 +71,14 @@ def gen(tier, seed, boost=False):
         for be in BACKENDS:
             yield dict(stream='exhaustive', be=be, rows=rows, names=ORDERS[cnt % len(ORDERS)])
             cnt += 1
+    # the same concept sets listed in other orders (re-ordered concept lists, remove + re-add)
+    rng2 = random.Random(seed * 7919 + 1616)
+    tabs = [rows for rows in G.tables_upto(3, 3) if G.is_mixed(rows)]
+    rng2.shuffle(tabs)
+    tabs = tabs[:120 if tier == 'quick' else 450] + [G.random_table(rng2, 8, 5, nmin=3, mmin=2) for _ in range(60 if tier == 'quick' else 600)]
+    for i, rows in enumerate(tabs):
+        for order in ('reversed', 'rotated', ['shuffle', rng2.randrange(10 ** 6)], ['readd', rng2.randrange(10 ** 6)]):
+            yield dict(stream='reordered', be=BACKENDS[i % 3], rows=rows, names=[NAMES[i % len(NAMES)]], order=order)
     # seeded random larger cases (extents up to 10)
     nrand = 400 if tier == 'quick' else 4000
     if boost:
@@ -122,7 +130,27 @@ def _logd(v, n_attrs):
 def _lattice(c):
     from fcapy.lattice import ConceptLattice
     K = make_context(c['rows'], c['be'])
-    return K, ConceptLattice.from_context(K)
+    L = ConceptLattice.from_context(K)
+    order = c.get('order')
+    if order:
+        # the same concepts listed in another order (the measures must not rely on the listing order):
+        # a lattice rebuilt from a re-ordered concept list, or one whose concept was removed and re-added
+        cs = list(L)
+        n = len(cs)
+        if order == 'reversed':
+            L = ConceptLattice(cs[::-1])
+        elif order == 'rotated':
+            L = ConceptLattice(cs[n // 2:] + cs[:n // 2])
+        elif order[0] == 'shuffle':
+            r = random.Random(order[1])
+            r.shuffle(cs)
+            L = ConceptLattice(cs)
+        elif order[0] == 'readd' and n > 2:
+            i = 1 + order[1] % (n - 2)
+            conc = L[i]
+            L.remove(conc)
+            L.add(conc)
+    return K, L
 
 
 def impl(c):
@@ -267,7 +295,7 @@ def nontrivial(c):
 
 
 def key(c):
-    return [c.get('rows'), c.get('be'), c.get('names'), c.get('kind'), c.get('s'), c.get('name')]
+    return [c.get('rows'), c.get('be'), c.get('names'), c.get('kind'), c.get('s'), c.get('name'), c.get('order')]
 
 
 def branch(c, io, rep):
